@@ -2074,7 +2074,8 @@ mod string_store {
 }
 
 /// Verification hooks (feature `verif_hooks`): instruction fuel, an optional (chunk, pc, height)
-/// trace, and the invariant that the raw active-fiber pointer matches the rooted one.
+/// trace, and the invariants that the raw active-fiber pointer matches the rooted one and that no
+/// open upvalue points above the top of the active fiber's value stack.
 #[cfg(feature = "verif_hooks")]
 pub mod verif {
     use std::cell::RefCell;
@@ -2091,6 +2092,7 @@ pub mod verif {
         trace_on: bool,
         trace: Vec<(usize, usize, usize)>,
         fiber_mismatch: u64,
+        dangling_upvalues: u64,
     }
 
     thread_local! {
@@ -2100,6 +2102,7 @@ pub mod verif {
             trace_on: false,
             trace: Vec::new(),
             fiber_mismatch: 0,
+            dangling_upvalues: 0,
         });
     }
 
@@ -2129,6 +2132,12 @@ pub mod verif {
         STATE.with(|s| mem::replace(&mut s.borrow_mut().fiber_mismatch, 0))
     }
 
+    /// Instruction boundaries at which the active fiber's highest open upvalue pointed at or above
+    /// the top of its value stack (a captured variable whose slot was discarded without closing).
+    pub fn take_dangling_upvalues() -> u64 {
+        STATE.with(|s| mem::replace(&mut s.borrow_mut().dangling_upvalues, 0))
+    }
+
     pub(super) fn tick(vm: &mut Vm) -> Option<Error> {
         STATE.with(|s| {
             let mut s = s.borrow_mut();
@@ -2136,6 +2145,16 @@ pub mod verif {
             let rooted = vm.fiber.as_ref().map(|f| std::cell::RefCell::as_ptr(&**f) as usize);
             if rooted != Some(vm.unsafe_fiber as usize) {
                 s.fiber_mismatch += 1;
+            }
+            {
+                // the open-upvalue list is sorted by descending address: the head is the highest
+                let fiber = vm.fiber.as_ref().unwrap().borrow();
+                let top = unsafe { fiber.stack.as_ptr().add(fiber.stack.len()) };
+                if let Some(head) = fiber.open_upvalues {
+                    if head.borrow().is_open_with_pred(|a| a >= top) {
+                        s.dangling_upvalues += 1;
+                    }
+                }
             }
             if s.trace_on && s.trace.len() < 4_000_000 {
                 let chunk = vm.active_chunk;
